@@ -145,12 +145,17 @@ def run_tool(build, tool, args, tracedir, timeout=20, env=None):
         e.update(env)
     full = dict(os.environ)
     full.update(e)
-    try:
-        p = subprocess.run([build.tool(tool)] + list(args) + [tracedir], stdout=subprocess.PIPE,
-                           stderr=subprocess.PIPE, timeout=timeout, env=full)
-        return p.returncode, p.stdout.decode(errors="replace"), p.stderr.decode(errors="replace")
-    except subprocess.TimeoutExpired as t:
-        return "timeout", (t.stdout or b"").decode(errors="replace"), (t.stderr or b"").decode(errors="replace")
+    # a tool that does not finish in `timeout` seconds is run once more with six times the budget before it is called
+    # a hang: on a loaded machine (16 workers, other builds) a millisecond job can be starved for many seconds, and a
+    # timeout is reported by the checks as a violation (C19: "never loop forever")
+    for attempt, tmo in enumerate((timeout, timeout * 6)):
+        try:
+            p = subprocess.run([build.tool(tool)] + list(args) + [tracedir], stdout=subprocess.PIPE,
+                               stderr=subprocess.PIPE, timeout=tmo, env=full)
+            return p.returncode, p.stdout.decode(errors="replace"), p.stderr.decode(errors="replace")
+        except subprocess.TimeoutExpired as t:
+            last = t
+    return "timeout", (last.stdout or b"").decode(errors="replace"), (last.stderr or b"").decode(errors="replace")
 
 
 def parse_prv(path):
